@@ -186,6 +186,8 @@ inductive SOp where
   | request (id : Nat) (dl : DL)
   | io (o : IOOut)
   | timeoutHere (r : Conn)
+  | timeoutBlock               -- the deadline passes, the re-connect takes time (Model/Serial.lean)
+  | reconn (r : Conn)          -- the re-connect in progress concludes
   | close
   deriving Repr, DecidableEq
 
@@ -214,17 +216,30 @@ def G.step (g : G) : SOp → G
   | .timeoutHere r =>
     let (s', out) := g.s.timeoutHere r
     ⟨s', if out.eff.conns > 0 ∨ s'.sockOpen ≠ g.s.sockOpen then [] else g.owed⟩
+  | .timeoutBlock =>
+    let (s', out) := g.s.timeoutBlock
+    ⟨s', if out.eff.conns > 0 ∨ s'.sockOpen ≠ g.s.sockOpen then [] else g.owed⟩
+  | .reconn r =>
+    let (s', out) := g.s.reconnDone r
+    ⟨s', if out.eff.conns > 0 ∨ s'.sockOpen ≠ g.s.sockOpen then [] else g.owed⟩
   | .close => ⟨g.s.close, []⟩
 
-/-- what `owed` must be: the transaction in flight, once its frame has been written -/
+/-- what `owed` must be: the transaction in flight, once its frame has been written — and until
+    its time-out handler has dropped the connection (blocked in the re-connect, nothing is
+    outstanding on a connection in use: there is none) -/
 def owedOf (s : Serial.St) : List Nat :=
   match s.processing with
-  | some t => if t.phase = .write then [] else [t.id]
+  | some t =>
+    match t.phase with
+    | .write => []
+    | .reconn => []
+    | _ => [t.id]
   | none => []
 
 structure GInv (g : G) : Prop where
   k : g.s.sockOpen = true → g.s.openRes = true
-  j : ∀ t, g.s.processing = some t → g.s.sockOpen = true
+  j : ∀ t, g.s.processing = some t →
+        g.s.openRes = true ∧ (t.phase = .reconn ↔ g.s.sockOpen = false)
   owed : g.owed = owedOf g.s
 
 theorem GInv_init : GInv G.init := ⟨by simp [G.init, Serial.St.init], by simp [G.init, Serial.St.init], rfl⟩
@@ -254,26 +269,36 @@ theorem GInv_step (g : G) (op : SOp) (h : GInv g) : GInv (g.step op) := by
       | past r => cases so <;> cases r <;> constructor <;>
           simp_all [G.step, Serial.St.request, Serial.St.txnTimeout, Serial.St.fault, Serial.St.state,
             Serial.St.close, owedOf] <;> (try split) <;> simp_all [owedOf]
+      | pastBlock => cases so <;> constructor <;>
+          simp_all [G.step, Serial.St.request, Serial.St.txnTimeoutStart, owedOf]
     | io o => constructor <;> simp_all [G.step, Serial.St.io, owedOf, consumed]
     | timeoutHere r => constructor <;> simp_all [G.step, Serial.St.timeoutHere, owedOf]
+    | timeoutBlock => constructor <;> simp_all [G.step, Serial.St.timeoutBlock, owedOf]
+    | reconn r => constructor <;> simp_all [G.step, Serial.St.reconnDone, owedOf]
   | some t =>
-    have hso : so = true := hj t rfl
-    subst hso
-    have hor : ores = true := hk rfl
+    obtain ⟨hor, hph⟩ := hj t rfl
     subst hor
     subst ho
     obtain ⟨tid, thd, tph⟩ := t
+    simp only at hph
     cases op with
     | close => exact ⟨by simp [G.step, Serial.St.close], by simp [G.step, Serial.St.close], by simp [G.step, Serial.St.close, owedOf]⟩
     | openT r => constructor <;> simp_all [G.step, Serial.St.openT, owedOf]
     | request id dl => constructor <;> simp_all [G.step, Serial.St.request, owedOf]
     | io o =>
-      cases o <;> cases tph <;> constructor <;>
+      cases o <;> cases tph <;> cases so <;> constructor <;>
         simp_all [G.step, Serial.St.io, Serial.St.txnFail, Serial.St.fault, Serial.St.state,
           Serial.St.close, owedOf, consumed] <;> (try split) <;> simp_all [owedOf]
     | timeoutHere r =>
-      cases r <;> cases thd <;> cases tph <;> constructor <;>
+      cases r <;> cases thd <;> cases tph <;> cases so <;> constructor <;>
         simp_all [G.step, Serial.St.timeoutHere, Serial.St.txnTimeout, Serial.St.fault, Serial.St.state,
+          Serial.St.close, owedOf] <;> (try split) <;> simp_all [owedOf]
+    | timeoutBlock =>
+      cases thd <;> cases tph <;> cases so <;> constructor <;>
+        simp_all [G.step, Serial.St.timeoutBlock, Serial.St.txnTimeoutStart, owedOf]
+    | reconn r =>
+      cases r <;> cases tph <;> cases so <;> constructor <;>
+        simp_all [G.step, Serial.St.reconnDone, Serial.St.fault, Serial.St.state,
           Serial.St.close, owedOf] <;> (try split) <;> simp_all [owedOf]
 
 def G.run (g : G) : List SOp → G
@@ -291,7 +316,8 @@ end SerialGhost
 open SerialGhost Scales.Serial Scales.Transport in
 /-- **Serial connections: a consumed reply is the caller's own.**  After any history of opens,
     requests (with or without deadline, also already expired), I/O outcomes, time-outs with
-    accepted or refused re-connects and closes: when a reply body is handed to request `id`, the
+    accepted or refused re-connects (concluding at once, or taking time with anything arriving in
+    between) and closes: when a reply body is handed to request `id`, the
     frames written on the current connection whose replies had not been consumed are exactly
     `[id]` — no frame of an earlier, abandoned transaction is outstanding on it. -/
 theorem C02_serial_own_reply (ops : List SOp) (o : IOOut) (id : Nat)
@@ -306,12 +332,9 @@ theorem C02_serial_own_reply (ops : List SOp) (o : IOOut) (id : Nat)
   | none => simp [hp] at h
   | some t =>
     simp only [hp] at h ⊢
-    cases o with
-    | raise => simp [Serial.St.txnFail] at h
-    | eof => simp [Serial.St.txnFail] at h
-    | ok =>
-      cases hph : t.phase <;> simp [hph] at h ⊢
-      exact h.symm
+    cases hph : t.phase <;> cases o <;> simp [hph, Serial.St.txnFail] at h ⊢ <;>
+      (try (split at h <;> simp at h))
+    exact h.symm
 
 open SerialGhost Scales.Serial in
 /-- a transaction that ended (reply, time-out, fault, refusal, close) leaves no unconsumed frame
@@ -336,7 +359,7 @@ structure Rel (a : SerialC02.Acc) (s : Serial.St) : Prop where
   clean : a.dirty = false
   infl : a.inflight = s.processing.map (·.id)
   k : s.sockOpen = true → s.openRes = true
-  j : ∀ t, s.processing = some t → s.sockOpen = true
+  j : ∀ t, s.processing = some t → s.openRes = true ∧ (t.phase = .reconn ↔ s.sockOpen = false)
 
 theorem Rel_init : Rel {} Serial.St.init := ⟨rfl, rfl, by simp [Serial.St.init], by simp [Serial.St.init]⟩
 
@@ -361,6 +384,10 @@ theorem Rel_step (a : SerialC02.Acc) (s : Serial.St) (op : Serial.Op) (h : Rel a
     | io o => constructor <;> simp_all [SerialC02.Acc.after, Serial.step, Serial.stepOut, Serial.obsOf, SerialC02.respOf, Serial.St.io]
     | timeoutHere r => constructor <;>
         simp_all [SerialC02.Acc.after, Serial.step, Serial.stepOut, Serial.obsOf, SerialC02.respOf, Serial.St.timeoutHere]
+    | timeoutBlock => constructor <;>
+        simp_all [SerialC02.Acc.after, Serial.step, Serial.stepOut, Serial.obsOf, SerialC02.respOf, Serial.St.timeoutBlock]
+    | reconn r => constructor <;>
+        simp_all [SerialC02.Acc.after, Serial.step, Serial.stepOut, Serial.obsOf, SerialC02.respOf, Serial.St.reconnDone]
     | req id dl =>
       cases dl with
       | none => cases so <;> constructor <;>
@@ -372,14 +399,16 @@ theorem Rel_step (a : SerialC02.Acc) (s : Serial.St) (op : Serial.Op) (h : Rel a
       | past r => cases so <;> cases r <;> constructor <;>
           simp_all [SerialC02.Acc.after, Serial.step, Serial.stepOut, Serial.obsOf, SerialC02.respOf, Serial.St.request, Serial.St.txnTimeout,
             Serial.St.fault, Serial.St.state, Serial.St.close, SerialC02.replaced] <;> (try split) <;> simp_all
+      | pastBlock => cases so <;> constructor <;>
+          simp_all [SerialC02.Acc.after, Serial.step, Serial.stepOut, Serial.obsOf, SerialC02.respOf, Serial.St.request, Serial.St.txnTimeoutStart,
+            Serial.St.state, SerialC02.replaced]
   | some t =>
-    have hso : so = true := hj t rfl
-    subst hso
-    have hor : ores = true := hk rfl
+    obtain ⟨hor, hph⟩ := hj t rfl
     subst hor
     simp only [Option.map_some] at hi
     subst hi
     obtain ⟨tid, thd, tph⟩ := t
+    simp only at hph
     cases op with
     | look => exact ⟨by simp [SerialC02.Acc.after, Serial.step, Serial.stepOut, Serial.obsOf, SerialC02.respOf], by simp [SerialC02.Acc.after, Serial.step, Serial.stepOut, Serial.obsOf, SerialC02.respOf], hk, hj⟩
     | close => exact ⟨rfl, rfl, by simp [Serial.step, stepOut, Serial.St.close], by simp [Serial.step, stepOut, Serial.St.close]⟩
@@ -388,12 +417,20 @@ theorem Rel_step (a : SerialC02.Acc) (s : Serial.St) (op : Serial.Op) (h : Rel a
     | req id dl => constructor <;>
         simp_all [SerialC02.Acc.after, Serial.step, Serial.stepOut, Serial.obsOf, SerialC02.respOf, Serial.St.request, Serial.St.state, SerialC02.replaced]
     | io o =>
-      cases o <;> cases tph <;> constructor <;>
+      cases o <;> cases tph <;> cases so <;> constructor <;>
         simp_all [SerialC02.Acc.after, Serial.step, Serial.stepOut, Serial.obsOf, SerialC02.respOf, Serial.St.io, Serial.St.txnFail,
           Serial.St.fault, Serial.St.state, Serial.St.close, SerialC02.replaced]
     | timeoutHere r =>
-      cases r <;> cases thd <;> cases tph <;> cases cs <;> constructor <;>
+      cases r <;> cases thd <;> cases tph <;> cases so <;> cases cs <;> constructor <;>
         simp_all [SerialC02.Acc.after, Serial.step, Serial.stepOut, Serial.obsOf, SerialC02.respOf, Serial.St.timeoutHere, Serial.St.txnTimeout,
+          Serial.St.fault, Serial.St.state, Serial.St.close, SerialC02.replaced]
+    | timeoutBlock =>
+      cases thd <;> cases tph <;> cases so <;> cases cs <;> constructor <;>
+        simp_all [SerialC02.Acc.after, Serial.step, Serial.stepOut, Serial.obsOf, SerialC02.respOf, Serial.St.timeoutBlock, Serial.St.txnTimeoutStart,
+          Serial.St.state, SerialC02.replaced]
+    | reconn r =>
+      cases r <;> cases tph <;> cases so <;> cases cs <;> constructor <;>
+        simp_all [SerialC02.Acc.after, Serial.step, Serial.stepOut, Serial.obsOf, SerialC02.respOf, Serial.St.reconnDone,
           Serial.St.fault, Serial.St.state, Serial.St.close, SerialC02.replaced]
 
 theorem specGo_ok : ∀ (ops : List Serial.Op) (a : SerialC02.Acc) (s : Serial.St), Rel a s →
